@@ -255,9 +255,8 @@ def train_multi_agent_on_policy(
                         agent_space = agent.action_space[agent_id]
                         if isinstance(agent_space, spaces.Box):
                             if agent.actors[actor_idx].squash_output:
-                                clipped_agent_action = agent.actors[
-                                    actor_idx
-                                ].scale_action(agent_action)
+                                # Already scaled to the bounds by the actor's forward pass
+                                clipped_agent_action = agent_action
                             else:
                                 clipped_agent_action = np.clip(
                                     agent_action, agent_space.low, agent_space.high
